@@ -279,6 +279,8 @@ def run(ck):
     ck.run_rule("G4.re", "an expression node resolved again at another '.' gives that copy's value (each copy of a repeated body sees its own '.')", 15, treeimm.rule_reresolve)
     ck.run_rule("G4.def", "deferred values (the image of a block, lengths, polynomials) are never updated in place", 30, treeimm.rule_deferred_immutable)
     ck.run_rule("C16.R2", ".repeat: iteration addresses, shared body, state copy, concatenation", 4, rule_R2)
+    from ..rules import route
+    ck.run_rule("DIR.route", "'.repeat n { body }' as a statement: count and body reach the handler, the one body is compiled n times", 1, route.rule_route, ("repeat",))
     ck.run_rule("C16.R3", ".once: threshold and counter increment before the body", 3, rule_R3)
     ck.run_rule("C16.R3p", "included file identity: relative paths are joined and normalised", 2, rule_paths)
     ck.run_rule("C16.R4", ".end: single raiser, single handler, bytes so far, parser stop", 4, rule_R4)
